@@ -342,7 +342,13 @@ def date_spellings(ymd, direct=True):
 # texts that are not numeric: a numeric parameter must answer #VALUE!
 NONNUMERIC_TEXTS = (('abc', 'letters'), ('1x', 'number-with-suffix'),
                     (' ', 'space'), ('', 'empty'),
-                    ('TRUE', 'boolean-looking'))
+                    ('TRUE', 'boolean-looking'),
+                    # what Python's float()/int() or a lenient date parser
+                    # would take although it spells no number
+                    ('1_000', 'python-number-syntax'), ('nan', 'python-nan'),
+                    ('inf', 'python-inf'), ('Infinity', 'python-inf'),
+                    ('may', 'word-a-date-parser-knows'),
+                    ('sat', 'word-a-date-parser-knows'))
 
 
 def selftest():
